@@ -14,3 +14,21 @@ ASSUMPTIONS = [
 
 def run(ck):
     mb_common.run_mb(ck, {"targets", "qos", "resub", "unsub"}, box_clauses={"delivery", "qos"})
+    # the subscriber's connection forwards every dequeued message as exactly one PUBLISH, intact (clause
+    # c06_forward_intact of the connection monitor, Props/C06_conn.v), on broker-connection traces
+    import _bc
+    ev, di, rule = ck.evaluations, ck.distinct, ck.rule
+    if ck.build_harness("brokerconn"):
+        os.environ["BC_FAMILY"] = "c16,c20" if ck.tier == "quick" else "c16,c20,c08"
+        path, _ = ck.harness("bc")
+        lines = ck.model("brokerconn", "bc", path)
+        traces = {}
+        for l in open(path).read().splitlines():
+            f = l.split(" ", 2)
+            if f[0] in ("scn", "ev", "end") and len(f) >= 2:
+                traces.setdefault(f[1], []).append(l)
+        for l in lines:
+            f = l.split()
+            if l.startswith("propfail ") and f[2] == "c06_forward_intact":
+                ck.fail_input("c06_forward_intact", l, traces.get(f[1], []))
+    ck.rule = rule + "; plus clause c06_forward_intact on broker-connection traces (reactive-subscriber and request families)"
